@@ -30,3 +30,10 @@ Definition uses_case_ok (c : nat * nat * modl * list nat) : bool :=
       forallb (fun x => existsb (Nat.eqb x) want) got && forallb (fun x => existsb (Nat.eqb x) got) want
       && Nat.eqb (length got) (length want)
   end.
+
+Fixpoint list_eqb (a b : list ident) : bool :=
+  match a, b with
+  | [], [] => true
+  | x :: a', y :: b' => text_eqb x y && list_eqb a' b'
+  | _, _ => false
+  end.
